@@ -42,6 +42,7 @@ def obligations(tier):
         Ob("real_crypto_validation", "V", "v_real", {}, 300, "real keys: sign through the CLI, verify with cryptography / pycryptodome over the reference Sig_structure", twin=False, weight=20),
         Ob("sign_envelope", "E1", "h_sign", {"cli": False}, 600, "key id < 2^32, 5 algorithms, 0..2 members, opaque contents: output == input + one reference COSE_Sign1; KMS gets the reference Sig_structure", weight=60),
         Ob("sign_cli", "E1", "h_sign", {"cli": True}, 600, "same through cmd_sign.main with files", weight=60),
+        Ob("sign_twice_different_context", "E1", "h_twice", {}, 600, "two CLI signings in ONE process with different KMS contexts/keys/algorithms: each uses a KMS initialised with its own context", weight=30),
         Ob("sign_failure_writes_nothing", "E1", "h_fail", {}, 300, "KMS failure / malformed envelope: exception propagates, no output file", weight=10),
         Ob("ecdsa_fixed_width", "E2", "k_es", {}, 300, "(r,s) in [0,2^bits), bits in {256,384,521}: signature == BE(r,n)||BE(s,n), n = ceil(bits/8)", weight=5),
         Ob("kms_sign_dispatch", "E2", "k_kms", {}, 600, "SuitKMS.sign: 5 key kinds x pem/der x 6 algorithm strings: exact data reaches the primitive with the right hash; mismatches refused", weight=30),
@@ -59,13 +60,23 @@ def _env():
     import ncs.sign_script as SS
     import suit_generator.cmd_sign as CS
 
-    def init_kms_backend(self, kms_script):
-        self.kms = stubs.KMSRecorder()
-        self.kms.init_kms(self._context)
-
-    SS.Signer.init_kms_backend = init_kms_backend
-    CS._import_signer = lambda script: SS.Signer()
+    # the repository's own loaders (_import_signer, init_kms_backend) run for real: the sign script is the real
+    # ncs/sign_script.py, the KMS script is the recording KMS of vlib/kms_stub_script.py
     return SS, CS, stubs
+
+
+def SIGN_SCRIPT():
+    import os
+
+    from vlib.repoenv import REPO
+
+    return os.path.join(REPO, "ncs", "sign_script.py")
+
+
+def KMS_SCRIPT():
+    import os
+
+    return os.path.join(os.path.dirname(os.path.dirname(os.path.abspath(__file__))), "vlib", "kms_stub_script.py")
 
 
 def _build_input(chx, cbormodel, nmembers, signed_blocks=()):
@@ -77,7 +88,7 @@ def _build_input(chx, cbormodel, nmembers, signed_blocks=()):
     digest_bstr = cbormodel.plain_dumps([digest_alg, digest])
     wrapper = cbormodel.plain_dumps([digest_bstr] + list(signed_blocks))
     members = {2: wrapper, 3: manifest}
-    names = ["#app", "dep.suit"]
+    names = ["second-longer-name.suit", "#a"]  # deliberately not in canonical (length-first) key order
     payloads = []
     for i in range(2):
         if i < nmembers:
@@ -116,12 +127,12 @@ def h_sign(cli=False, exclude=()):
         if cli:
             fs.names, fs.contents, fs.writes = [], [], []
             fs.add("in.suit", in_bytes)
-            CS.main(sign_subcommand="single-level", input_envelope="in.suit", output_envelope="out.suit", key_name="the-key", key_id=kid, alg=alg, context="ctx", sign_script="s.py", kms_script="k.py", already_signed_action=SignatureAlreadyPresentActions.ERROR)
+            CS.main(sign_subcommand="single-level", input_envelope="in.suit", output_envelope="out.suit", key_name="the-key", key_id=kid, alg=alg, context="ctx", sign_script=SIGN_SCRIPT(), kms_script=KMS_SCRIPT(), already_signed_action=SignatureAlreadyPresentActions.ERROR)
             out_bytes = fs.written("out.suit")
             ok_io = out_bytes is not None and len([w for w in fs.writes]) == 1
         else:
             env = cbormodel.loads(in_bytes)  # decoded the way cbor2 6 does it (immutable tag content)
-            out = SS.Signer().sign_envelope(env, "the-key", kid, alg, "ctx", "k.py", SignatureAlreadyPresentActions.ERROR)
+            out = SS.Signer().sign_envelope(env, "the-key", kid, alg, "ctx", KMS_SCRIPT(), SignatureAlreadyPresentActions.ERROR)
             out_bytes = cbormodel.plain_dumps(out)
             ok_io = True
         protected = refenc.BW(refenc.M([(1, R.COSE_ALGS[cose_name]), (4, refenc.BW(kid))]))
@@ -140,6 +151,7 @@ def h_sign(cli=False, exclude=()):
             and signs[0][2] == "the-key"
             and signs[0][3] == alg_str
             and signs[0][4] == "ctx"
+            and signs[0][5] == "ctx"
         )
         if DEBUG:
             from crosshair.tracers import NoTracing
@@ -153,6 +165,56 @@ def h_sign(cli=False, exclude=()):
 
 
 DEBUG = False
+
+
+def h_twice(exclude=()):
+    """History: loader / signer / KMS state must not leak from one signing into the next."""
+    SS, CS, stubs = _env()
+    from suit_generator.suit_sign_script_base import SignatureAlreadyPresentActions, SuitSignAlgorithms
+
+    from vlib import cbormodel, chx, refenc
+    from vlib import registry as R
+    from vlib.cbormodel import CBORTag
+
+    fs = stubs.FS()
+    CS.open = fs.open
+
+    def harness():
+        cbormodel.reset()
+        stubs.KMSRecorder.reset()
+        kids = [chx.sym_int("key_id0", 0, 2**32 - 1), chx.sym_int("key_id1", 0, 23)]
+        a0 = chx.pick("alg0", ALGS)
+        a1 = chx.pick("alg1", ALGS)
+        sigs = [chx.sym_bytes("sig0_", 4), chx.sym_bytes("sig1_", 4)]
+        stubs.KMSRecorder.SIGNATURES = list(sigs)
+        first_skipped = chx.sym_bool("first_is_skipped_presigned")
+        ok = True
+        for i, (alg_member, alg_str, cose_name) in enumerate((a0, a1)):
+            digest = chx.sym_bytes(f"digest{i}_", 3)
+            manifest = chx.sym_bytes(f"manifest{i}_", 2)
+            digest_bstr = cbormodel.plain_dumps([-16, digest])
+            entries = [digest_bstr]
+            presigned = i == 0 and first_skipped
+            if presigned:
+                entries.append(refenc.BW(CBORTag(18, [refenc.BW(refenc.M([(1, -8)])), {}, None, b"OLD"])))
+            fs.names, fs.contents, fs.writes = [], [], []
+            fs.add("in.suit", cbormodel.dumps(CBORTag(107, {2: cbormodel.plain_dumps(entries), 3: manifest})))
+            CS.main(sign_subcommand="single-level", input_envelope="in.suit", output_envelope="out.suit", key_name=f"key{i}", key_id=kids[i], alg=SuitSignAlgorithms[alg_member], context=f"ctx{i}", sign_script=SIGN_SCRIPT(), kms_script=KMS_SCRIPT(), already_signed_action=SignatureAlreadyPresentActions.SKIP)
+            out = fs.written("out.suit")
+            if presigned:
+                exp_entries = entries
+            else:
+                protected = refenc.BW(refenc.M([(1, R.COSE_ALGS[cose_name]), (4, refenc.BW(kids[i]))]))
+                sig = sigs[len([e for e in stubs.KMSRecorder.LOG if e[0] == "sign"]) - 1] if [e for e in stubs.KMSRecorder.LOG if e[0] == "sign"] else b""
+                exp_entries = entries + [refenc.BW(CBORTag(18, [protected, {}, None, sig]))]
+                last = [e for e in stubs.KMSRecorder.LOG if e[0] == "sign"]
+                ok = ok and len(last) >= 1 and last[-1][2] == f"key{i}" and last[-1][3] == alg_str and last[-1][4] == f"ctx{i}" and last[-1][5] == f"ctx{i}" and last[-1][1] == refenc.sig_structure(protected, digest_bstr)
+            ok = ok and out == cbormodel.plain_dumps(CBORTag(107, refenc.M([(2, cbormodel.plain_dumps(exp_entries)), (3, manifest)])))
+        nsign = len([e for e in stubs.KMSRecorder.LOG if e[0] == "sign"])
+        ok = ok and nsign == (1 if first_skipped else 2)
+        return chx.conclude(ok, first_is_skipped_presigned=first_skipped)
+
+    return harness
 
 
 def h_fail(exclude=()):
@@ -181,7 +243,7 @@ def h_fail(exclude=()):
         fs.names, fs.contents, fs.writes = [], [], []
         fs.add("in.suit", data)
         try:
-            CS.main(sign_subcommand="single-level", input_envelope="in.suit", output_envelope="out.suit", key_name="k", key_id=kid, alg=SuitSignAlgorithms.EdDSA, context=None, sign_script="s.py", kms_script="k.py", already_signed_action=SignatureAlreadyPresentActions.ERROR)
+            CS.main(sign_subcommand="single-level", input_envelope="in.suit", output_envelope="out.suit", key_name="k", key_id=kid, alg=SuitSignAlgorithms.EdDSA, context=None, sign_script=SIGN_SCRIPT(), kms_script=KMS_SCRIPT(), already_signed_action=SignatureAlreadyPresentActions.ERROR)
             ok = False
         except Exception:
             ok = len(fs.writes) == 0
@@ -510,7 +572,7 @@ def _sample_envelope(nmembers=1):
     digest = cbor2.dumps([-16, hashlib.sha256(cbor2.dumps(manifest)).digest()])
     members = {2: cbor2.dumps([digest]), 3: manifest}
     for i in range(nmembers):
-        members[["#app", "dep.suit"][i]] = bytes([i + 1]) * 5
+        members[["second-longer-name.suit", "#a"][i]] = bytes([i + 1]) * 5
     return cbor2.dumps(cbor2.CBORTag(107, members))
 
 
@@ -597,6 +659,48 @@ def replay(obligation, params, cex):
                 return dict(reproduced=True, detail=f"signing a valid unsigned envelope raises {type(e).__name__}: {e}", finding="F1" if type(e).__name__ in ("TypeError", "AttributeError") else None)
             r = verify_signed(inb, outb, alg_str, cose_name, kid, keys[alg_str].public_key())
             return dict(reproduced=r is not None, detail=r or "output verifies")
+        if obligation == "sign_twice_different_context":
+            # two signings in one process, each with its own key directory holding a key file of the SAME name
+            import shutil
+
+            from cryptography.hazmat.primitives import serialization as ser
+            from cryptography.hazmat.primitives.asymmetric import ed25519
+
+            from suit_generator.suit_sign_script_base import SignatureAlreadyPresentActions, SuitSignAlgorithms
+            from vlib.repoenv import REPO
+
+            pubs = []
+            for i in range(2):
+                kd = os.path.join(d, f"keys{i}")
+                os.makedirs(kd)
+                k = ed25519.Ed25519PrivateKey.generate()
+                open(os.path.join(kd, "samename.pem"), "wb").write(k.private_bytes(ser.Encoding.PEM, ser.PrivateFormat.PKCS8, ser.NoEncryption()))
+                pubs.append(k.public_key())
+            inb0 = _sample_envelope(1)
+            if cex.get("first_is_skipped_presigned"):
+                shutil.copy(os.path.join(d, "key_eddsa.pem"), os.path.join(d, "keys0", "pre.pem"))
+            for i in range(2):
+                fin, fout = os.path.join(d, f"in{i}.suit"), os.path.join(d, f"out{i}.suit")
+                inb = _sample_envelope(i)
+                action = SignatureAlreadyPresentActions.SKIP
+                if i == 0 and cex.get("first_is_skipped_presigned"):
+                    open(fin, "wb").write(inb)
+                    CS.main(sign_subcommand="single-level", input_envelope=fin, output_envelope=fin, key_name="pre", key_id=1, alg=SuitSignAlgorithms.EdDSA, context=os.path.join(d, "keys0"), sign_script=os.path.join(REPO, "ncs", "sign_script.py"), kms_script=os.path.join(REPO, "ncs", "basic_kms.py"), already_signed_action=action)
+                    inb = open(fin, "rb").read()
+                open(fin, "wb").write(inb)
+                try:
+                    CS.main(sign_subcommand="single-level", input_envelope=fin, output_envelope=fout, key_name="samename", key_id=7 + i, alg=SuitSignAlgorithms.EdDSA, context=os.path.join(d, f"keys{i}"), sign_script=os.path.join(REPO, "ncs", "sign_script.py"), kms_script=os.path.join(REPO, "ncs", "basic_kms.py"), already_signed_action=action)
+                except Exception as e:  # noqa
+                    return dict(reproduced=True, detail=f"signing #{i} raises {type(e).__name__}: {e}")
+                outb = open(fout, "rb").read()
+                if i == 0 and cex.get("first_is_skipped_presigned"):
+                    if outb != inb:
+                        return dict(reproduced=True, detail="skip changed the envelope")
+                    continue
+                r = verify_signed(inb, outb, "eddsa", "cose-alg-eddsa", 7 + i, pubs[i])
+                if r:
+                    return dict(reproduced=True, detail=f"signing #{i} (own key directory keys{i}): {r}")
+            return dict(reproduced=False, detail="each signing used its own key directory")
         if obligation == "sign_failure_writes_nothing":
             import cbor2
 
